@@ -5,11 +5,15 @@ import sys, subprocess, os
 f, old, new = sys.argv[1], sys.argv[2], sys.argv[3]
 ids = sys.argv[4:]
 p = os.path.join("/repo", f)
-s = open(p).read()
-old = old.encode().decode("unicode_escape")
-new = new.encode().decode("unicode_escape")
+s = open(p, newline="").read()
+crlf = "\r\n" in s
+old = old.encode("latin-1", "backslashreplace").decode("unicode_escape") if "\\" in old else old
+new = new.encode("latin-1", "backslashreplace").decode("unicode_escape") if "\\" in new else new
+if crlf:
+    old = old.replace("\n", "\r\n")
+    new = new.replace("\n", "\r\n")
 assert s.count(old) >= 1, "pattern not found"
-open(p, "w").write(s.replace(old, new, 1))
+open(p, "w", newline="").write(s.replace(old, new, 1))
 try:
     for i in ids:
         r = subprocess.run(["./vp", "check", i], cwd="/verif", stdout=subprocess.PIPE, stderr=subprocess.STDOUT, text=True)
